@@ -13,7 +13,7 @@ CtxKind(c) ==
   CASE c = "plain" -> "Block"
     [] c = "if_accept" -> "IfAccept"
     [] c \in {"if_reject", "if_else_if"} -> "IfReject"
-    [] c \in {"switch_case", "switch_default", "switch_multi"} -> "Switch"
+    [] c \in {"switch_case", "switch_default", "switch_multi", "switch_after_default"} -> "Switch"
     [] c \in {"loop_body", "for_body", "while_body"} -> "LoopBody"
     [] OTHER -> "LoopContinuing"
 AllKinds == {"Block", "IfAccept", "IfReject", "Switch", "LoopBody", "LoopContinuing"}
@@ -25,6 +25,10 @@ BlockCalls(ns, Handled) ==
   ELSE LET n == Head(ns)
            here == IF n.k = "call" THEN << n.f >>
                    (* "if_both": the same statements in the accept and in the reject arm of one `if` *)
+                   (* "if_split": the first statement in the accept arm, the remaining ones in the reject arm *)
+                   ELSE IF n.k = "block" /\ n.ctx = "if_split"
+                   THEN (IF "IfAccept" \in Handled THEN BlockCalls(SubSeq(n.items, 1, 1), Handled) ELSE << >>)
+                        \o (IF "IfReject" \in Handled THEN BlockCalls(SubSeq(n.items, 2, Len(n.items)), Handled) ELSE << >>)
                    ELSE IF n.k = "block" /\ n.ctx = "if_both"
                    THEN (IF "IfAccept" \in Handled THEN BlockCalls(n.items, Handled) ELSE << >>) \o (IF "IfReject" \in Handled THEN BlockCalls(n.items, Handled) ELSE << >>)
                    ELSE IF n.k = "block" /\ CtxKind(n.ctx) \in Handled THEN BlockCalls(n.items, Handled)
